@@ -1516,7 +1516,12 @@ class UBCalculation:
                 "Cannot calculate theta angle as no lattice parameters have been specified."
             )
         wl = 12.39842 / en
-        d = self.crystal.get_hkl_plane_distance(hkl)
+        try:
+            d = self.crystal.get_hkl_plane_distance(hkl)
+        except ZeroDivisionError:
+            raise DiffcalcException(
+                "Cannot calculate scattering angle for zero length reciprocal vector."
+            )
         try:
             sin_theta = bound(wl / (d * 2))
         except AssertionError:
